@@ -931,6 +931,330 @@ Proof.
     cbn [val_eqb]. apply Qeqb_eq. rewrite (Qclip_id _ lo hi Hin). reflexivity.
 Qed.
 
+
+
+(* ================= nearest-neighbour ordinal: round trip ================= *)
+(* is_increasing(categories), on the internal (possibly log) values *)
+Fixpoint increasing (l : list Q) : Prop :=
+  match l with
+  | a :: ((b :: _) as r) => a < b /\ increasing r
+  | _ => True
+  end.
+Lemma increasing_head : forall r a, increasing (a :: r) -> forall j, (j < length r)%nat -> a < nth j r 0.
+Proof.
+  induction r as [|b r IH]; intros a H j Hj; [simpl in Hj; lia|].
+  destruct H as [Hab Hr]. destruct j; simpl; [exact Hab|].
+  apply Qlt_trans with b; [exact Hab|]. apply IH; [exact Hr | simpl in Hj; lia].
+Qed.
+Lemma increasing_tail a r : increasing (a :: r) -> increasing r.
+Proof. destruct r; [intros; exact I | intros [_ H]; exact H]. Qed.
+Lemma increasing_lt : forall l i j, increasing l -> (i < j < length l)%nat -> nth i l 0 < nth j l 0.
+Proof.
+  induction l as [|a r IH]; intros i j H Hij; [simpl in Hij; lia|].
+  destruct j; [lia|]. destruct i; simpl.
+  - apply increasing_head; [exact H | simpl in Hij; lia].
+  - apply IH; [eapply increasing_tail; exact H | simpl in Hij; lia].
+Qed.
+Lemma increasing_le_last : forall l i, increasing l -> (i < length l)%nat -> nth i l 0 <= last l 0.
+Proof.
+  induction l as [|a r IH]; intros i H Hi; [simpl in Hi; lia|].
+  destruct r as [|b r'].
+  - destruct i; [simpl; lra | simpl in Hi; lia].
+  - change (last (a :: b :: r') 0) with (last (b :: r') 0).
+    destruct i.
+    + simpl nth. destruct H as [Hab Hr]. pose proof (IH 0%nat Hr ltac:(simpl; lia)) as H0. simpl nth in H0. lra.
+    + change (nth (S i) (a :: b :: r') 0) with (nth i (b :: r') 0).
+      apply IH; [eapply increasing_tail; exact H | simpl in *; lia].
+Qed.
+Lemma increasing_hd_le l i : increasing l -> (i < length l)%nat -> hd 0 l <= nth i l 0.
+Proof.
+  intros H Hi. destruct l as [|a r]; [simpl in Hi; lia|]. destruct i; simpl; [lra|].
+  apply Qlt_le_weak. apply increasing_head; [exact H | simpl in Hi; lia].
+Qed.
+Lemma diffs_pos : forall l, increasing l -> Forall (fun d => 0 < d) (diffs l).
+Proof.
+  induction l as [|a r IH]; intro H; [constructor|].
+  destruct r as [|b r']; [constructor|]. destruct H as [Hab Hr].
+  change (diffs (a :: b :: r')) with ((b - a) :: diffs (b :: r')). constructor; [lra | apply IH; exact Hr].
+Qed.
+Lemma Qsum_nonneg l : Forall (fun d => 0 < d) l -> 0 <= Qsum l.
+Proof. induction 1; simpl; [lra|]. unfold Qsum in *. simpl. lra. Qed.
+Lemma nn_avg_dist_nonneg ci : increasing ci -> 0 <= nn_avg_dist ci.
+Proof.
+  intro H. unfold nn_avg_dist, Qmean, Qdiv.
+  pose proof (Qsum_nonneg _ (diffs_pos ci H)) as Hs.
+  assert (0 <= / inject_Z (Z.of_nat (length (diffs ci)))) as Hi.
+  { apply Qinv_le_0_compat. change 0 with (inject_Z 0). rewrite <- Zle_Qle. lia. }
+  pose proof (Qmult_le_0_compat _ _ Hs Hi). lra.
+Qed.
+
+(* np.argmin on distances with a unique zero *)
+Lemma argmin_from_keep : forall l best bi cur,
+  (forall j, (j < length l)%nat -> best <= nth j l 0) -> argmin_from best bi cur l = bi.
+Proof.
+  induction l as [|x l IH]; intros best bi cur H; simpl; [reflexivity|].
+  assert (Qltb x best = false) as ->. { apply Qltb_false. apply (H 0%nat). simpl. lia. }
+  apply IH. intros j Hj. apply (H (S j)). simpl. lia.
+Qed.
+Lemma argmin_from_zero : forall l best bi cur i,
+  (i < length l)%nat -> nth i l 0 == 0 -> (forall j, (j < i)%nat -> 0 < nth j l 0) ->
+  (forall j, (j < length l)%nat -> 0 <= nth j l 0) -> 0 < best ->
+  argmin_from best bi cur l = (cur + i)%nat.
+Proof.
+  induction l as [|x l IH]; intros best bi cur i Hi Hz Hpos Hnn Hb; [simpl in Hi; lia|].
+  destruct i; simpl.
+  - simpl in Hz. assert (Qltb x best = true) as -> by (apply Qltb_lt; lra).
+    rewrite argmin_from_keep; [lia|]. intros j Hj. pose proof (Hnn (S j) ltac:(simpl; lia)) as H. simpl in H. lra.
+  - pose proof (Hpos 0%nat ltac:(lia)) as Hx. simpl in Hx.
+    assert (forall j, (j < i)%nat -> 0 < nth j l 0) as Hpos' by (intros j Hj; apply (Hpos (S j)); lia).
+    assert (forall j, (j < length l)%nat -> 0 <= nth j l 0) as Hnn' by (intros j Hj; apply (Hnn (S j)); simpl; lia).
+    simpl in Hi, Hz.
+    destruct (Qltb x best) eqn:Eb.
+    + rewrite (IH x cur (S cur) i); auto; lia.
+    + rewrite (IH best bi (S cur) i); auto; lia.
+Qed.
+Lemma argmin_zero l i :
+  (i < length l)%nat -> nth i l 0 == 0 -> (forall j, (j < i)%nat -> 0 < nth j l 0) ->
+  (forall j, (j < length l)%nat -> 0 <= nth j l 0) -> argmin l = i.
+Proof.
+  intros Hi Hz Hpos Hnn. destruct l as [|x r]; [simpl in Hi; lia|]. unfold argmin.
+  destruct i.
+  - simpl in Hz. apply argmin_from_keep. intros j Hj. pose proof (Hnn (S j) ltac:(simpl; lia)) as H. simpl in H. lra.
+  - pose proof (Hpos 0%nat ltac:(lia)) as Hx. simpl in Hx.
+    rewrite (argmin_from_zero r x 0%nat 1%nat i); auto; try lia.
+    + simpl in Hi. lia.
+    + intros j Hj. apply (Hpos (S j)). lia.
+    + intros j Hj. apply (Hnn (S j)). simpl. lia.
+Qed.
+
+Lemma nth_map_dist (ci : list Q) (y : Q) j : (j < length ci)%nat ->
+  nth j (map (fun c => Qabs (c - y)) ci) 0 = Qabs (nth j ci 0 - y).
+Proof.
+  intro Hj. rewrite (nth_indep _ 0 (Qabs (0 - y))) by (rewrite map_length; exact Hj).
+  apply (map_nth (fun c => Qabs (c - y))).
+Qed.
+
+Lemma nn_cast_int_exact cats ci y i x :
+  length ci = length cats -> increasing ci -> nth_error cats i = Some x -> y == nth i ci 0 ->
+  nn_cast_int cats ci y = Some x.
+Proof.
+  intros Hlen Hinc Hx Hy. unfold nn_cast_int.
+  assert (i < length cats)%nat as Hi by (apply nth_error_Some; congruence).
+  destruct (Nat.ltb 1 (length cats)) eqn:E.
+  - rewrite (argmin_zero _ i); [exact Hx | | | |].
+    + rewrite map_length. lia.
+    + rewrite nth_map_dist by lia. rewrite Hy. setoid_replace (nth i ci 0 - nth i ci 0) with 0 by ring. reflexivity.
+    + intros j Hj. rewrite nth_map_dist by lia.
+      pose proof (increasing_lt ci j i Hinc ltac:(lia)) as Hlt.
+      apply Qabs_case; intros; lra.
+    + intros j Hj. rewrite map_length in Hj. rewrite nth_map_dist by lia. apply Qabs_nonneg.
+  - apply Nat.ltb_ge in E. assert (i = 0)%nat as -> by lia. exact Hx.
+Qed.
+
+Lemma nth_cats_int sc cats i x : nth_error cats i = Some x ->
+  nth i (nn_cats_int sc cats) 0 = to_int sc (val_num x).
+Proof.
+  intro H. unfold nn_cats_int.
+  assert (i < length cats)%nat as Hi by (apply nth_error_Some; congruence).
+  rewrite (nth_indep _ 0 (to_int sc (val_num (VI 0)))) by (rewrite map_length; exact Hi).
+  rewrite (map_nth (fun c => to_int sc (val_num c))). f_equal. f_equal.
+  apply nth_error_nth with (d := VI 0) in H. exact H.
+Qed.
+
+(* every category cats[i] encodes into [0,1] and decodes back to itself.  [sc] is the transform of
+   the domain (identity, or log for kind "nn-log": then [increasing] is a fact of log); the range
+   is the one HyperparameterRangeOrdinalNearestNeighbor builds (linear on the internal values) *)
+Lemma nn_roundtrip eps sc cats r i x :
+  0 <= eps -> increasing (nn_cats_int sc cats) ->
+  c_sc r = Domain.linear -> c_lo r = nn_lower_int (nn_cats_int sc cats) ->
+  c_hi r = nn_upper_int (nn_cats_int sc cats) ->
+  nth_error cats i = Some x ->
+  exists e, nn_to_nd eps sc cats r x = Some e /\ 0 <= e <= 1 /\ nn_from_nd eps sc cats r e = Some x.
+Proof.
+  intros He Hinc Hsc Hlo Hhi Hx.
+  set (ci := nn_cats_int sc cats) in *.
+  assert (length ci = length cats) as Hlen by (unfold ci, nn_cats_int; apply map_length).
+  assert (i < length cats)%nat as Hi by (apply nth_error_Some; congruence).
+  pose proof (nth_cats_int sc cats i x Hx) as Hci. fold ci in Hci.
+  assert (c_lo r <= to_int sc (val_num x) <= c_hi r) as Hin.
+  { rewrite Hlo, Hhi, <- Hci. unfold nn_lower_int, nn_upper_int.
+    pose proof (nn_avg_dist_nonneg ci Hinc). pose proof (increasing_hd_le ci i Hinc ltac:(lia)).
+    pose proof (increasing_le_last ci i Hinc ltac:(lia)). lra. }
+  destruct (cont_roundtrip eps r (to_int sc (val_num x)) He) as (e & y & E1 & E2 & E3 & E4); auto.
+  { rewrite Hsc. apply linear_good. }
+  exists e. unfold nn_to_nd, nn_from_nd. rewrite (nth_error_mem_val _ _ _ Hx), E1, E3.
+  split; [reflexivity|]. split; [exact E2|]. fold ci.
+  apply (nn_cast_int_exact cats ci y i x Hlen Hinc Hx). rewrite Hci. exact E4.
+Qed.
+
+
+
+(* ================= finite range with cast_int: round trip ================= *)
+Lemma Qfloor_unique q z : inject_Z z <= q -> q < inject_Z z + 1 -> Qfloor q = z.
+Proof.
+  intros H1 H2. pose proof (Qfloor_le q) as F1. pose proof (Qlt_floor q) as F2.
+  rewrite inject_Z_plus1 in F2.
+  assert (inject_Z (Qfloor q) < inject_Z (z + 1)) as A by (rewrite inject_Z_plus1; lra).
+  assert (inject_Z z < inject_Z (Qfloor q + 1)) as B by (rewrite inject_Z_plus1; lra).
+  rewrite <- Zlt_Qlt in A, B. lia.
+Qed.
+(* a half-integer goes to the even neighbour *)
+Lemma round_he_tie z : round_he (inject_Z z + (1#2)) = if Z.even z then z else (z + 1)%Z.
+Proof.
+  unfold round_he. rewrite (Qfloor_unique (inject_Z z + (1#2)) z) by lra.
+  destruct (Qcompare_spec (inject_Z z + (1 # 2) - inject_Z z) (1 # 2)) as [E|E|E]; try (exfalso; lra).
+  reflexivity.
+Qed.
+Lemma round_he_tie_up x : round_he (inject_Z x + (1#2)) = x <-> Z.even x = true.
+Proof. rewrite round_he_tie. destruct (Z.even x); split; intro; try lia; try discriminate; reflexivity. Qed.
+Lemma round_he_tie_down x : round_he (inject_Z x - (1#2)) = x <-> Z.even x = true.
+Proof.
+  assert (inject_Z x - (1#2) == inject_Z (x - 1) + (1#2)) as E by (rewrite inject_Z_minus1; ring).
+  rewrite (round_he_comp _ _ E), round_he_tie.
+  replace (x - 1)%Z with (Z.pred x) by lia. rewrite Z.even_pred, <- Z.negb_even.
+  destruct (Z.even x); simpl; split; intro; try lia; try discriminate; reflexivity.
+Qed.
+
+Lemma Qclip_cases X lo hi : lo <= hi ->
+  (X < lo /\ Qclip X lo hi = lo) \/ (hi < X /\ Qclip X lo hi = hi) \/ (lo <= X <= hi /\ Qclip X lo hi = X).
+Proof.
+  intro H. unfold Qclip. destruct (Qltb X lo) eqn:E1.
+  - apply Qltb_lt in E1. left. split; [exact E1|]. destruct (Qltb hi lo) eqn:E2; [apply Qltb_lt in E2; lra | reflexivity].
+  - apply Qltb_false in E1. destruct (Qltb hi X) eqn:E2.
+    + apply Qltb_lt in E2. right. left. auto.
+    + apply Qltb_false in E2. right. right. split; [lra | reflexivity].
+Qed.
+
+(* the arithmetic core: y = lo + i*s is a grid point, x = round(y) the listed value, x' its clip,
+   j = round((x' - lo)/s) the index found by _map_to_int; then the grid point j rounds to x again *)
+Lemma castint_core lo hi s y t (i j x : Z) :
+  lo <= hi -> 0 < s -> y == inject_Z i * s + lo -> lo <= y <= hi ->
+  x = round_he y -> t * s == Qclip (inject_Z x) lo hi - lo -> j = round_he t ->
+  round_he (inject_Z j * s + lo) = x.
+Proof.
+  intros Hlh Hs Ey Hy Hx Et Hj.
+  set (X := inject_Z x) in *. set (x' := Qclip X lo hi) in *.
+  set (J := inject_Z j). set (I := inject_Z i) in *.
+  pose proof (round_he_near y) as Ny. rewrite <- Hx in Ny. fold X in Ny.
+  pose proof (round_he_near t) as Nt. rewrite <- Hj in Nt. fold J in Nt.
+  destruct Nt as [Nt1 Nt2].
+  assert (0 <= s) as Hs0 by lra.
+  pose proof (Qmult_le_compat_r _ _ s Nt1 Hs0) as P2.   (* (t - 1/2) s <= J s *)
+  pose proof (Qmult_le_compat_r _ _ s Nt2 Hs0) as P1.   (* J s <= (t + 1/2) s *)
+  assert ((t - (1#2)) * s == t * s - s * (1#2)) as R2 by ring.
+  assert ((t + (1#2)) * s == t * s + s * (1#2)) as R1 by ring.
+  set (Js := J * s) in *. set (ts := t * s) in *.
+  pose proof (Qclip_cases X lo hi Hlh) as Hc. fold x' in Hc.
+  apply Z.le_antisymm.
+  - (* round (y_j) <= x *)
+    destruct (Z_le_gt_dec j i) as [Hji|Hji].
+    + rewrite Hx. apply round_he_mono. rewrite Ey.
+      assert (J <= I) as HJI by (unfold J, I; rewrite <- Zle_Qle; exact Hji).
+      pose proof (Qmult_le_compat_r _ _ s HJI Hs0). fold Js in H. lra.
+    + assert (I + 1 <= J) as HJI.
+      { unfold J, I. rewrite <- inject_Z_plus1, <- Zle_Qle. lia. }
+      pose proof (Qmult_le_compat_r _ _ s HJI Hs0) as Q. fold Js in Q.
+      assert ((I + 1) * s == I * s + s) as RQ by ring.
+      set (Is := I * s) in *.
+      (* x' >= y + s/2 > lo, hence x' <= X *)
+      assert (x' <= X) as HxX by (destruct Hc as [[? E]|[[? E]|[? E]]]; rewrite E in *; lra).
+      destruct (Qlt_le_dec (Js + lo) (X + (1#2))) as [Hlt|Hge].
+      * apply round_he_ub. fold J. fold Js. exact Hlt.
+      * (* tie: s = 1, x' = X, y = X - 1/2, so x is even *)
+        assert (y == X - (1#2)) as Ey2 by lra.
+        assert (Js + lo == X + (1#2)) as Ej by lra.
+        assert (Z.even x = true) as Hev.
+        { apply round_he_tie_down. fold X. rewrite <- (round_he_comp _ _ Ey2). symmetry. exact Hx. }
+        fold J. fold Js. rewrite (round_he_comp _ _ Ej). apply Z.eq_le_incl. apply round_he_tie_up. exact Hev.
+  - (* x <= round (y_j) *)
+    destruct (Z_le_gt_dec i j) as [Hij|Hij].
+    + rewrite Hx. apply round_he_mono. rewrite Ey.
+      assert (I <= J) as HJI by (unfold J, I; rewrite <- Zle_Qle; exact Hij).
+      pose proof (Qmult_le_compat_r _ _ s HJI Hs0). fold Js in H. lra.
+    + assert (J + 1 <= I) as HJI.
+      { unfold J, I. rewrite <- inject_Z_plus1, <- Zle_Qle. lia. }
+      pose proof (Qmult_le_compat_r _ _ s HJI Hs0) as Q. fold Js in Q.
+      assert ((J + 1) * s == J * s + s) as RQ by ring. fold Js in RQ.
+      set (Is := I * s) in *.
+      assert (X <= x') as HxX by (destruct Hc as [[? E]|[[? E]|[? E]]]; rewrite E in *; lra).
+      destruct (Qlt_le_dec (X - (1#2)) (Js + lo)) as [Hlt|Hge].
+      * apply round_he_lb. fold J. fold Js. exact Hlt.
+      * assert (y == X + (1#2)) as Ey2 by lra.
+        assert (Js + lo == X - (1#2)) as Ej by lra.
+        assert (Z.even x = true) as Hev.
+        { apply round_he_tie_up. fold X. rewrite <- (round_he_comp _ _ Ey2). symmetry. exact Hx. }
+        fold J. fold Js. rewrite (round_he_comp _ _ Ej). apply Z.eq_le_incl. symmetry. apply round_he_tie_down. exact Hev.
+Qed.
+
+Lemma f_step_nonneg r : f_sc r = Domain.linear -> f_lo r <= f_hi r -> 0 <= f_step r.
+Proof.
+  intros Hsc Hlh. unfold f_step, f_lo_i, f_hi_i. rewrite Hsc. cbn [to_int Domain.linear].
+  destruct (Z.ltb 1 (f_size r)) eqn:En; [|lra]. apply Z.ltb_lt in En.
+  apply Qle_shift_div_l; [change 0 with (inject_Z 0); rewrite <- Zlt_Qlt; lia | lra].
+Qed.
+Lemma f_step_span r : f_sc r = Domain.linear -> ~ f_step r == 0 ->
+  (1 < f_size r)%Z /\ inject_Z (f_size r - 1) * f_step r == f_hi r - f_lo r.
+Proof.
+  intros Hsc Hne. unfold f_step, f_lo_i, f_hi_i in *. rewrite Hsc in *. cbn [to_int Domain.linear] in *.
+  destruct (Z.ltb 1 (f_size r)) eqn:En; [|exfalso; apply Hne; reflexivity]. apply Z.ltb_lt in En.
+  split; [exact En|]. field. intro E0.
+  assert (inject_Z 0 < inject_Z (f_size r - 1)) as Hlt by (rewrite <- Zlt_Qlt; lia).
+  change (inject_Z 0) with 0 in Hlt. lra.
+Qed.
+
+Lemma fr_roundtrip_castint eps r i :
+  0 < eps < 1#2 -> f_sc r = Domain.linear -> f_cast_int r = true -> f_lo r <= f_hi r ->
+  (0 <= i < f_size r)%Z ->
+  exists e y, fr_to_nd eps r (fr_map_from_int r i) = Some e /\ 0 <= e <= 1 /\
+              fr_from_nd eps r e = Some y /\ val_eqb (fr_map_from_int r i) y = true.
+Proof.
+  intros He Hsc Hci Hlh Hi.
+  assert (Hfrom : forall k, (0 <= k < f_size r)%Z ->
+                  fr_map_from_int r k = VI (round_he (inject_Z k * f_step r + f_lo r))).
+  { intros k Hk. unfold fr_map_from_int, fr_map_from_int_pre, f_lo_i. rewrite Hsc, Hci.
+    cbn [from_int to_int Domain.linear].
+    rewrite (Qclip_id _ _ _ (f_step_in r k Hsc Hlh Hk)). reflexivity. }
+  assert (Hto : forall X, fr_map_to_int r X =
+                  if Qeqb (f_step r) 0 then Some 0%Z
+                  else Some (round_he ((Qclip X (f_lo r) (f_hi r) - f_lo r) / f_step r))).
+  { intro X. unfold fr_map_to_int, fr_map_to_int_pre, f_lo_i, f_hi_i. rewrite Hsc.
+    cbn [from_int to_int sc_dom Domain.linear].
+    destruct (Qeqb (f_step r) 0); [reflexivity|].
+    rewrite (Qclip_id (Qclip X (f_lo r) (f_hi r)) _ _ (Qclip_bounds X _ _ Hlh)). reflexivity. }
+  assert (sc_good (i_sc (f_rint r)) (c_lo (i_cont eps (f_rint r))) (c_hi (i_cont eps (f_rint r)))) as Hg
+    by (apply linear_good).
+  pose proof (f_step_in r i Hsc Hlh Hi) as Hin.
+  unfold fr_to_nd, fr_from_nd. rewrite (Hfrom i Hi). cbn [val_num]. rewrite Hto.
+  pose proof (f_step_nonneg r Hsc Hlh) as Hs0.
+  pose proof (f_step_span r Hsc) as Hspan0.
+  set (lo := f_lo r) in *. set (hi := f_hi r) in *. set (step := f_step r) in *.
+  set (x := round_he (inject_Z i * step + lo)).
+  destruct (Qeqb step 0) eqn:E0.
+  - apply Qeqb_eq in E0.
+    destruct (int_roundtrip eps (f_rint r) 0%Z He Hg) as (e & E1 & E2 & E3); [simpl; lia|].
+    exists e. rewrite E1, E3. cbn [option_map]. rewrite (Hfrom 0%Z ltac:(lia)).
+    eexists. split; [reflexivity|]. split; [exact E2|]. split; [reflexivity|].
+    cbn [val_eqb]. apply Z.eqb_eq. unfold x. apply round_he_comp. rewrite E0. ring.
+  - apply Qeqb_neq in E0.
+    assert (0 < step) as Hs. { destruct (Qlt_le_dec 0 step); [assumption|]. exfalso. apply E0. lra. }
+    destruct (Hspan0 E0) as [Hn Hspan].
+    set (x' := Qclip (inject_Z x) lo hi).
+    pose proof (Qclip_bounds (inject_Z x) lo hi Hlh) as Hx'. fold x' in Hx'.
+    set (t := (x' - lo) / step).
+    assert (t * step == x' - lo) as Et by (unfold t; field; lra).
+    assert (inject_Z 0 <= t <= inject_Z (f_size r - 1)) as Ht.
+    { change (inject_Z 0) with 0. split.
+      - unfold t. apply Qle_shift_div_l; lra.
+      - unfold t. apply Qle_shift_div_r; lra. }
+    pose proof (round_he_in_Z t _ _ Ht) as Hj.
+    destruct (int_roundtrip eps (f_rint r) (round_he t) He Hg) as (e & E1 & E2 & E3); [simpl; lia|].
+    exists e. rewrite E1, E3. cbn [option_map]. rewrite (Hfrom (round_he t) ltac:(lia)).
+    eexists. split; [reflexivity|]. split; [exact E2|]. split; [reflexivity|].
+    cbn [val_eqb]. apply Z.eqb_eq. symmetry.
+    apply (castint_core lo hi step (inject_Z i * step + lo) t i (round_he t) x Hlh Hs);
+      [reflexivity | exact Hin | reflexivity | exact Et | reflexivity].
+Qed.
+
 (* ================= one range, one space ================= *)
 Definition hp_wf (h : hprange) : Prop :=
   match h with
@@ -1022,20 +1346,25 @@ Qed.
 (* ================= round trip of one range and of a space ================= *)
 Definition val_equiv (x y : val) : Prop := val_eqb x y = true.
 
-(* side conditions of the exact round trip (linear scaling; finite ranges with float values);
-   nearest-neighbour ordinals are not covered by this lemma *)
+(* side conditions of the exact round trip: continuous / integer ranges under [sc_good]; finite
+   ranges with LINEAR scaling (float values or cast_int); nearest-neighbour ordinals with strictly
+   increasing internal values (what OrdinalNearestNeighbor asserts) and the range
+   HyperparameterRangeOrdinalNearestNeighbor builds *)
 Definition hp_rt_ok (eps : Q) (h : hprange) : Prop :=
   match h with
   | HCont r => sc_good (c_sc r) (c_lo r) (c_hi r)
   | HInt r => sc_good (i_sc r) (c_lo (i_cont eps r)) (c_hi (i_cont eps r))
-  | HFin r => f_sc r = Domain.linear /\ f_cast_int r = false /\ f_lo r <= f_hi r
+  | HFin r => f_sc r = Domain.linear /\ f_lo r <= f_hi r
   | HOneHot c _ => True
   | HBin c r | HOrdEq c r => i_sc r = Domain.linear /\ i_lo r = 0%Z /\ i_hi r = (Z.of_nat (length c) - 1)%Z
-  | HOrdNN _ _ _ => False
+  | HOrdNN sc cats r =>
+      increasing (nn_cats_int sc cats) /\ c_sc r = Domain.linear /\
+      c_lo r = nn_lower_int (nn_cats_int sc cats) /\ c_hi r = nn_upper_int (nn_cats_int sc cats)
   end.
 Definition hp_rt_member (h : hprange) (x : val) : Prop :=
   match h with
   | HFin r => exists i, (0 <= i < f_size r)%Z /\ x = fr_map_from_int r i
+  | HOrdNN _ cats _ => exists i, nth_error cats i = Some x
   | _ => hp_member h x
   end.
 
@@ -1052,9 +1381,12 @@ Proof.
   - destruct Hm as (z & -> & Hz).
     destruct (int_roundtrip eps r z He Hok Hz) as (e & E1 & E2 & E3).
     exists [e], (VI z). rewrite E1, E3. simpl. repeat split; auto. apply Z.eqb_refl.
-  - destruct Hok as (Hsc & Hci & Hlh). destruct Hm as (i & Hi & ->).
-    destruct (fr_roundtrip_linear eps r i He Hsc Hci Hlh Hi) as (e & y & E1 & E2 & E3 & E4).
-    exists [e], y. rewrite E1, E3. simpl. repeat split; auto.
+  - destruct Hok as (Hsc & Hlh). destruct Hm as (i & Hi & ->).
+    destruct (f_cast_int r) eqn:Hci.
+    + destruct (fr_roundtrip_castint eps r i He Hsc Hci Hlh Hi) as (e & y & E1 & E2 & E3 & E4).
+      exists [e], y. rewrite E1, E3. simpl. repeat split; auto.
+    + destruct (fr_roundtrip_linear eps r i He Hsc Hci Hlh Hi) as (e & y & E1 & E2 & E3 & E4).
+      exists [e], y. rewrite E1, E3. simpl. repeat split; auto.
   - destruct (onehot_roundtrip c a x Hm) as (e & y & E1 & E2 & E3 & E4 & E5).
     exists e, y. repeat split; auto.
   - destruct Hok as (Hsc & Hlo & Hhi).
@@ -1063,7 +1395,9 @@ Proof.
   - destruct Hok as (Hsc & Hlo & Hhi).
     destruct (idx_roundtrip eps c r x He Hsc Hlo Hhi Hm) as (e & y & E1 & E2 & E3 & E4).
     exists [e], y. rewrite E1, E3. simpl. repeat split; auto.
-  - contradiction.
+  - destruct Hok as (Hinc & Hsc & Hlo & Hhi). destruct Hm as (i & Hi).
+    destruct (nn_roundtrip eps sc c r i x ltac:(lra) Hinc Hsc Hlo Hhi Hi) as (e & E1 & E2 & E3).
+    exists [e], x. rewrite E1, E3. simpl. repeat split; auto. apply val_eqb_refl.
 Qed.
 
 Lemma firstn_app_len {A} (a b : list A) : firstn (length a) (a ++ b) = a.
